@@ -67,9 +67,35 @@ PostN == \E n \in Pick(1..MaxBatch),
            LET b == SubSeq(<<P(l1, s1, e1), P(l2, s2, e2), P(l3, s3, e3)>>, 1, n)
            IN Legal(b) /\ ApiPost(b)
 
+
+(* Equal stamps.  PostDup: one body that holds the same label set at least twice (a sender  *)
+(* flushing a backlog: [firing version, resolved version], [fire, heartbeat], [resolve,    *)
+(* fire], ...), every combination of present / missing startsAt and endsAt, so that Put    *)
+(* takes the merge path (ranges overlap) as well as the replace path; optionally a third   *)
+(* arbitrary alert (invalid, another label set, the same label set once more) at any       *)
+(* position.  PostSame: a second request for a label set at the instant of the first.      *)
+PickNE(S)   == IF S = {} THEN {} ELSE Pick(S)
+ValidVars   == {v \in Variants : Canon(v) \in CanonIds}
+SameAs(l)   == {v \in Variants : Canon(v) = Canon(l)}
+InsertAt(q, x, k) == SubSeq(q, 1, k - 1) \o <<x>> \o SubSeq(q, k, Len(q))
+HasDup(batch) == ~DistinctBatch(batch, now)
+DupPair(Q(_)) == \E l1 \in PickNE(ValidVars), s1 \in Pick(Starts(now)), e1 \in Pick(Ends(now)) :
+                 \E l2 \in Pick(SameAs(l1)), s2 \in Pick(Starts(now)), e2 \in Pick(Ends(now)) :
+                    Q(<<P(l1, s1, e1), P(l2, s2, e2)>>)
+PostDup2 == LET Q(pair) == HasDup(pair) /\ ApiPost(pair) IN DupPair(Q)
+PostDup3 == LET Q(pair) == \E k \in Pick(1..3), l3 \in Pick(Variants), s3 \in Pick(Starts(now)), e3 \in Pick(Ends(now)) :
+                             LET b == InsertAt(pair, P(l3, s3, e3), k) IN HasDup(b) /\ ApiPost(b)
+            IN DupPair(Q)
+PostDup == \E n \in Pick(2..MaxBatch) : IF n = 2 THEN PostDup2 ELSE PostDup3
+Stamped == {v \in ValidVars : Canon(v) \in DOMAIN store /\ store[Canon(v)].upd = now}
+PostSame == \E ls \in PickNE(Stamped), s \in Pick(Starts(now)), e \in Pick(Ends(now)) :
+              LET b == <<P(ls, s, e)>> IN ValidAlert(Defaulted(b[1], now)) /\ ApiPost(b)
+
 Next == \/ ("post1" \in Ops /\ Post1)
         \/ ("post2" \in Ops /\ Post2)
         \/ ("postn" \in Ops /\ PostN)
+        \/ ("postdup" \in Ops /\ PostDup)
+        \/ ("postsame" \in Ops /\ PostSame)
         \/ ("gc" \in Ops /\ GC)
         \/ ("tickgc" \in Ops /\ now < MaxTime /\ TickGC)
         \/ ("tick" \in Ops /\ now < MaxTime /\ Tick(1))
@@ -80,6 +106,12 @@ Next == \/ ("post1" \in Ops /\ Post1)
 Spec == Init /\ [][Next]_vars
 \* upd (only reported), the counter and the observation do not influence any step
 View == <<now, [fp \in DOMAIN store |-> <<store[fp].start, store[fp].end, store[fp].timeout>>], buckets, sil, orph>>
+\* (with the other reading of the stamp comparison the stamp matters while it can tie with
+\* the next submission: at the current instant)
+ViewSwap == <<now, [fp \in DOMAIN store |-> <<store[fp].start, store[fp].end, store[fp].timeout, store[fp].upd = now>>], buckets, sil, orph>>
+\* the other reading of the stamp comparison at equality (MC_Alerts_swap.cfg: TLC must find
+\* a history that contradicts SubmissionOrder - the clauses decide the same-stamp family)
+SwapTies == [i \in 1..7 |-> i = 7]
 
 -----------------------------------------------------------------------------
 (* C18 with the known finding F4 (see Alerts!F4Gap): P \/ KnownGap           *)
